@@ -17,7 +17,7 @@ RULE = ('(1) seeded random programs of 4-25 operations over REAL objects, compar
         'written to and advanced through their inner generators before AND while the queue plays them; clone early, clone late, clone of clone, read '
         'alternately); gen (every generator class of harness/stimcore.catalogue incl. nested transforms: disturbed run == fresh run; reset == rebuilt); '
         'memo (every fast_cache\'d function incl. the scalar ones, equal arguments of different kinds, positional / keyword, str / Path, caller writes into '
-        'every answer: each answer == the un-memoised function). Non-trivial: the program contains a caller write or a deepcopy or global-random use.')
+        'every answer: each answer == the un-memoised function); memokeys (for every fast_cache\'d function incl. both filter-design helpers: groups of calls in one process that a bug in the memo key would confuse - same values under different keyword names, keyword order swapped, positional vs keyword forms of different parameters, -1 / -2 and -1.0 / -2.0 (equal hash), 1 / 1.0 / True, 0 / 0.0 / False - in both orders, each answer == the un-memoised function). Non-trivial: the program contains a caller write or a deepcopy or global-random use.')
 TRUSTED = ['harness/C10.py (program generator; mapping of model value codes to doubles via one-shot carriers and the un-memoised function)',
            'harness/stimcore.py mk / catalogue (builders of the real generator objects, shared with C01/C09)',
            'CPython/NumPy view semantics as modelled in coq/Determ/Model.v (slices are views, np.concatenate/.copy() allocate, read-only flag rejects writes)']
@@ -166,6 +166,8 @@ def cases(tier, rng):
         yield {'k': 'gen', 'seed': 1000 * rng.randint(0, 10 ** 4) + j}      # seed % catalogue size walks through every generator type
     for _ in range(30 if quick else 400):
         yield {'k': 'memo', 'seed': rng.randint(0, 10 ** 6)}
+    for salt in range(12 if quick else 120):
+        yield {'k': 'memokeys', 'salt': salt}
 
 
 def _random_prog(rng):
@@ -231,6 +233,8 @@ def impl(case):
         return _gen_case(case['seed'])
     if case['k'] == 'memo':
         return _memo_case(case['seed'])
+    if case['k'] == 'memokeys':
+        return _memokeys_case(case['salt'])
     from psiaudio import stim
     objs, views, out = [], [], []
     for i, o in enumerate(case['prog']):
@@ -618,6 +622,119 @@ def _memo_case(seed):
 
 
 _MEMO_CAL = {}
+
+
+class _IirCal:
+    """a calibration that can design an equalising FIR (psiaudio's own calibrations have no get_iir): enough to exercise the
+    memoised helper _calculate_bandlimited_noise_iir(fs, calibration, fl, fh)"""
+    def get_iir(self, fs, fl, fh, duration):
+        n = 7
+        return np.cos(np.arange(n) * (fl / fs)) * (1.0 + fh / fs) + duration * 1e-3
+
+
+def _memokey_groups(salt):
+    """groups of memoised calls made one after the other in ONE process that a plausible bug in the memo key would confuse:
+    same values under different keyword names, keyword order swapped, positional vs keyword forms of different parameters,
+    different values with equal hash (-1 / -2; also -1.0 / -2.0) and equal values of different type (1 / 1.0 / True, 0 / 0.0 / False).
+    `salt` varies an argument that is part of every key, so that each case starts from entries no earlier case has made."""
+    from pathlib import Path
+    import stimcore
+    from psiaudio import stim
+    from psiaudio.calibration import FlatCalibration
+    w, fs = 'cosine-squared', 1000
+    d = 0.012 + 0.001 * (salt % 9)          # envelope duration
+    fm = 40 + salt                          # modulation frequency
+    dl = 0.001 * (salt % 4)                 # SAM delay
+    wav = stimcore._wav_path(21, FS)
+    wavp = Path(wav) if salt % 2 else wav
+    norm = ('pe', 'rms')[(salt // 2) % 2]
+    cal = FlatCalibration.unity()           # a new object per case: hashed by identity
+    ical = _IirCal()
+    E, C2, SP, SPH, SE_, SE = stim.envelope, stim.cos2envelope, stim.sam_eq_power, stim.sam_eq_phase, stim._sam_envelope, stim.sam_envelope
+    F, FI, LW = stim._calculate_bandlimited_noise_filter, stim._calculate_bandlimited_noise_iir, stim.load_wav
+    fl = 100.0 + salt
+    g = [
+        # ---- envelope ----
+        [(E, (w, fs), dict(duration=d, rise_time=0.003)), (E, (w, fs), dict(duration=d, start_time=0.003)),
+         (E, (w, fs), dict(rise_time=0.003, duration=d)), (E, (w, fs, d, 0.003), {}), (E, (w, fs, d), dict(start_time=0.003))],
+        [(E, (w, fs, d, 0.002), dict(offset=3, samples=8)), (E, (w, fs, d, 0.002), dict(samples=3, offset=8)),
+         (E, (w, fs, d, 0.002, 3), dict(samples=8)), (E, (w, fs, d, 0.002, 8, 0, 3), {})],
+        [(E, (w, fs), dict(duration=d, start_time=0.004)), (E, (w, fs), dict(duration=0.004, start_time=d)),
+         (E, (w, fs), dict(start_time=d, duration=0.004))],
+        [(E, (w, 1000, d, 0.002, 1), dict(samples=9)), (E, (w, 1000.0, d, 0.002, True), dict(samples=9)),
+         (E, (w, fs, d, 0.002, 0), dict(samples=9)), (E, (w, fs, d, 0.002, False), dict(samples=9))],
+        # ---- cos2envelope ----
+        [(C2, (fs, d, 0.003), dict(offset=4, samples=9)), (C2, (fs, d, 0.003), dict(samples=4, offset=9)),
+         (C2, (fs, d, 0.003, 4), dict(samples=9)), (C2, (fs, d, 0.003), dict(start_time=0.004, samples=9)),
+         (C2, (fs, d, 0.003, 0, 0.004, 9), {})],
+        [(C2, (fs,), dict(duration=d, rise_time=0.002)), (C2, (fs,), dict(duration=0.002 * 3, rise_time=0.002)),
+         (C2, (fs,), dict(rise_time=d / 4, duration=d)), (C2, (fs, d), dict(rise_time=0.002)), (C2, (fs, d, 0.002), {})],
+        [(C2, (fs, d, 0.003, -1), dict(samples=9)), (C2, (fs, d, 0.003, -2), dict(samples=9))],
+        # ---- sam_eq_power / sam_eq_phase ----
+        [(SP, (-1,), {}), (SP, (-2,), {}), (SP, (-1.0,), {}), (SP, (-2.0,), {}), (SP, (), dict(depth=-2)), (SP, (), dict(depth=-1))],
+        [(SP, (1,), {}), (SP, (1.0,), {}), (SP, (True,), {}), (SP, (0,), {}), (SP, (0.0,), {}), (SP, (False,), {}),
+         (SP, (), dict(depth=0.5)), (SP, (0.5,), {})],
+        [(SPH, (dl, -1, 1), {}), (SPH, (dl, -2, 1), {}), (SPH, (dl, -1.0, -1), {}), (SPH, (dl, -2.0, -1), {})],
+        [(SPH, (), dict(delay=0.5 + dl, depth=1, direction=1)), (SPH, (), dict(depth=0.5 + dl, delay=1, direction=1)),
+         (SPH, (), dict(direction=1, depth=1, delay=0.5 + dl)), (SPH, (0.5 + dl, 1), dict(direction=1)), (SPH, (0.5 + dl,), dict(depth=1, direction=-1)),
+         (SPH, (dl, 1, 1), {}), (SPH, (dl, 1.0, True), {}), (SPH, (dl, 0, 1), {}), (SPH, (dl, False, 1), {})],
+        # ---- _sam_envelope / sam_envelope ----
+        [(SE_, (-1, 6, fs, 1, fm, 0.002, 0.3, 1.1), {}), (SE_, (-2, 6, fs, 1, fm, 0.002, 0.3, 1.1), {})],
+        [(SE_, (), dict(offset=3, samples=8, fs=fs, depth=1, fm=fm, delay=0.002, eq_phase=0.3, eq_power=1.1)),
+         (SE_, (), dict(samples=3, offset=8, fs=fs, depth=1, fm=fm, delay=0.002, eq_phase=0.3, eq_power=1.1)),
+         (SE_, (3, 8, fs, 1, fm, 0.002), dict(eq_phase=0.3, eq_power=1.1)), (SE_, (3, 8, fs, 1, fm, 0.002), dict(eq_phase=1.1, eq_power=0.3)),
+         (SE_, (3, 8, fs, 1, fm, 0.002), dict(eq_power=1.1, eq_phase=0.3)), (SE_, (3, 8, fs, 1, fm, 0.002, 0.3, 1.1), {}),
+         (SE_, (3, 8, fs, True, fm, 0.002, 0.3, 1.1), {}), (SE_, (3, 8, fs, 1.0, float(fm), 0.002, 0.3, 1.1), {})],
+        [(SE, (-1, 6, fs, 1, fm, dl, True), {}), (SE, (-2, 6, fs, 1, fm, dl, True), {})],
+        [(SE, (), dict(offset=2, samples=7, fs=fs, depth=1, fm=fm, delay=dl, equalize=True)),
+         (SE, (), dict(samples=2, offset=7, fs=fs, depth=1, fm=fm, delay=dl, equalize=True)),
+         (SE, (2, 7, fs), dict(depth=0.5, fm=fm, delay=dl, equalize=True)), (SE, (2, 7, fs), dict(fm=fm, depth=0.5, delay=dl, equalize=True)),
+         (SE, (2, 7, fs, 1, fm, dl, 1), {}), (SE, (2, 7, fs, 1, fm, dl, 1.0), {}), (SE, (2, 7, fs, 1, fm, dl), dict(equalize=True))],
+        # ---- the two filter-design helpers ----
+        [(F, (fs, fl, 200.0, 50.0, 400.0, 1, 80), {}), (F, (fs, fl, 200.0, 50.0, 400.0, 1, 60), {}),
+         (F, (fs, fl, 200.0, 50.0, 400.0), dict(passband_attenuation=1, stopband_attenuation=80)),
+         (F, (fs, fl, 200.0, 50.0, 400.0), dict(stopband_attenuation=60, passband_attenuation=1)),
+         (F, (fs, fl, 200.0), dict(fls=50.0, fhs=400.0, passband_attenuation=2, stopband_attenuation=80)),
+         (F, (fs, fl, 200.0), dict(fhs=400.0, fls=50.0, stopband_attenuation=80, passband_attenuation=2)),
+         (F, (fs, fl, 200.0, 50.0, 400.0, True, 80), {}), (F, (1000.0, fl, 200.0, 50.0, 400.0, 1.0, 80.0), {})],
+        [(FI, (fs, ical), dict(fl=fl, fh=200.0)), (FI, (fs, ical), dict(fh=fl, fl=200.0)), (FI, (fs, ical), dict(fh=200.0, fl=fl)),
+         (FI, (fs, ical, fl, 200.0), {}), (FI, (fs, ical, 200.0, fl), {}), (FI, (fs, ical, fl), dict(fh=200.0)),
+         (FI, (fs, _IirCal(), fl, 200.0), {})],
+        # ---- load_wav ----
+        [(LW, (FS, wavp, -1, cal), dict(normalization=norm)), (LW, (FS, wavp, -2, cal), dict(normalization=norm)),
+         (LW, (FS, wavp), dict(level=-2.0, calibration=cal, normalization=norm)), (LW, (FS, wavp), dict(calibration=cal, level=-1.0, normalization=norm)),
+         (LW, (FS, wavp, 0, cal, norm), {}), (LW, (FS, wavp, False, cal, norm), {}), (LW, (FS, wavp, 1, cal, norm), {}), (LW, (FS, wavp, True, cal, norm), {})],
+        [(LW, (FS, wavp), dict(normalization=norm)), (LW, (FS, wavp, None, None, norm), {}), (LW, (FS, wavp), dict(level=None, normalization=norm)),
+         (LW, (FS, wavp), dict(calibration=None, normalization=norm)), (LW, (FS, wavp), {}), (LW, (FS, wavp, None), dict(normalization=None))],
+    ]
+    return g
+
+
+def _memokeys_case(salt):
+    from psiaudio import stim
+    import stimcore
+
+    def same(a, b):
+        if isinstance(a, tuple):
+            return isinstance(b, tuple) and len(a) == len(b) and all(same(x, y) for x, y in zip(a, b))
+        if isinstance(a, np.ndarray) or isinstance(b, np.ndarray):
+            a, b = np.asarray(a, dtype=float), np.asarray(b, dtype=float)
+            return a.shape == b.shape and np.array_equal(a, b, equal_nan=True)
+        return a == b or (a != a and b != b)
+    n = 0
+    for grp in _memokey_groups(salt):
+        for rnd in range(2):               # second round: every entry exists by now
+            for f, args, kw in (grp[::-1] if (salt + rnd) % 2 else grp):
+                r = f(*args, **kw)
+                want = _unwrap(f)(*args, **kw)
+                n += 1
+                if not same(r, want):
+                    return {'n': n, 'fail': f'{f.__name__}{args} {kw} returned {r!r:.160}, but the function of these arguments is {want!r:.160} '
+                                            f'(asked after {[(a, k) for _, a, k in grp]!r:.400})'}
+                for a in (r if isinstance(r, tuple) else (r,)):
+                    if isinstance(a, np.ndarray):
+                        stimcore.scribble(a)
+    return {'n': n, 'fail': None}
 
 
 def _queue_sources(rng, fs, seed):
